@@ -525,6 +525,19 @@ class C05(SingleRun):
         f["restart"] = K.choice([0.05, 0.2, 0.5, 1.0], "restart_rate")
         return f
 
+    def profile(self, seed, tier, as_prop=None):
+        p = SingleRun.profile(self, seed, tier, as_prop)
+        if Keyed(seed).u("profile", "late_var") < 0.25:
+            p["gates"]["late_var"] = "only" if Keyed(seed).u("profile", "late_only") < 0.5 else True
+            p["world"]["expect_clean"] = False
+            p["faults"]["p_fail"] = 0.3
+        if Keyed(seed).u("profile", "output_all_fail") < 0.08:
+            # state that decides whether the output is rendered again must survive a restart
+            p["output_all_fail"] = True
+            p["world"]["expect_clean"] = False
+            p["faults"]["p_fail"] = 0.3
+        return p
+
     def nontrivial(self, r):
         return r["stats"].get("probe_twin_restores", 0) >= 2
 
